@@ -330,6 +330,7 @@ class Imaging(AbstractDataset):
             noise_covariance_matrix=noise_covariance_matrix,
             over_sampling=self.over_sampling,
             pad_for_convolver=True,
+            use_normalized_psf=self.use_normalized_psf,
         )
 
         dataset.unmasked = unmasked_dataset
